@@ -477,7 +477,7 @@ LATE_ESCAPES = {"send-contextupdate-bad": ["send ContextUpdate(data=3)"],
                 "startflow-context-params": ['send StartFlow(flow_id="helper_p", flow_instance_uid="u1", context=1)']}
 
 
-def escape_case(rng, kind, names, first, relap, bad_input):
+def escape_case(rng, kind, names, first, relap, bad_input, batch=False):
     """faulty flow whose erroneous statement raises outside every try block of the state machine (ESCAPE_KINDS / LATE_ESCAPES), or
     a well-behaved flow next to an external event that run_to_completion rejects (kind None); handler flows `names` observe
     ColangError; the observers of the external events have an action pending in the very round in which the error is raised"""
@@ -498,6 +498,15 @@ def escape_case(rng, kind, names, first, relap, bad_input):
     for e in script:
         if e["type"] not in ev_names and e["type"] not in BAD_INPUT_TYPES:
             ev_names.append(e["type"])
+    if batch:
+        # several events handed to ONE process_events call ("later events" of the same call): every Next joins the event in front of it
+        merged = []
+        for e in script:
+            if e["type"] == "Next" and merged and merged[-1] is not script[0]:
+                merged[-1] = (merged[-1] if isinstance(merged[-1], list) else [merged[-1]]) + [e]
+            else:
+                merged.append(e)
+        script = merged
     src = hd.handler_src(tr.REPO, names) + ["@active", "flow faulty"] + ["  " + l for l in body] + [""]
     src += ERR_FLOWS.get(kind, [])
     src += observer_flows(ev_names, rng.choice(["direct", "direct", "sub"]))
@@ -511,7 +520,9 @@ def escape_case(rng, kind, names, first, relap, bad_input):
     if relap:
         meta["relap"] = True
     if bad_input is not None:
-        meta["bad_inputs"] = sorted({e["type"] for e in script if e["type"] in BAD_INPUT_TYPES})
+        meta["bad_inputs"] = sorted({e["type"] for x in script for e in (x if isinstance(x, list) else [x]) if e["type"] in BAD_INPUT_TYPES})
+    if batch:
+        meta["batch"] = True
     return {"kind": "prog", "src": "\n".join(src) + "\n", "events": script, "meta": meta}
 
 
@@ -525,10 +536,11 @@ def gen_escape_cases(rng, tier):
             # every kind with a reporting handler set, with another set / none, as the first statement of the activated flow
             out.append(escape_case(rng, kind, ESCAPE_HANDLER_SETS[(i + r) % 5], first=False, relap=rng.random() < 0.5, bad_input=None))
             out.append(escape_case(rng, kind, ESCAPE_HANDLER_SETS[(i + r + 3) % n], first=(i + r) % 3 == 0, relap=rng.random() < 0.3,
-                                   bad_input=rng.choice(BAD_INPUTS) if rng.random() < 0.3 else None))
+                                   bad_input=rng.choice(BAD_INPUTS) if rng.random() < 0.3 else None, batch=(i + r) % 2 == 0))
         for j, bi in enumerate(BAD_INPUTS):
             for k in range(2):
                 out.append(escape_case(rng, None, ESCAPE_HANDLER_SETS[(j + 2 * k + r) % n], first=False, relap=bool(k), bad_input=bi))
+            out.append(escape_case(rng, None, ESCAPE_HANDLER_SETS[(j + r) % 5], first=False, relap=True, bad_input=bi, batch=True))
     return out
 
 
@@ -1086,7 +1098,10 @@ def run_impl(case):
               "err_texts": [], "phases": 0, "phase_limit": 10 ** 9, "rtc_calls": 0, "rtc_limit": 10 ** 9, "conv_classes": []}
         st["budget"] = BUDGET_FACTOR * (sum(len(p) for p in progs.values()) + 10)
         _R.st = st
-        call = {"event": ev["type"], "out": [], "pe_exc": None, "budget_hit": None}
+        evs_in = ev if isinstance(ev, list) else [ev]  # a list = several events handed to one process_events call
+        call = {"event": "+".join(e["type"] for e in evs_in), "out": [], "pe_exc": None, "budget_hit": None}
+        if isinstance(ev, list):
+            call["events"] = [e["type"] for e in evs_in]
         signal.setitimer(signal.ITIMER_VIRTUAL, 15.0, 1.0)
         max_events0 = _R.rt.max_events
         if case["meta"].get("max_events"):
@@ -1094,7 +1109,7 @@ def run_impl(case):
         st["rtc_limit"] = _R.rt.max_events + 2  # anchor runtime.max_events: at most that many events (= processing rounds) per call
         try:
             with contextlib.redirect_stdout(io.StringIO()):
-                out, state = asyncio.run(_R.rt.process_events([dict(ev)], state, instant_actions=case["meta"].get("instant")))
+                out, state = asyncio.run(_R.rt.process_events([dict(e) for e in evs_in], state, instant_actions=case["meta"].get("instant")))
             call["out"] = [e["type"] for e in out]
         except Budget as b:
             call["budget_hit"] = str(b)
@@ -1155,7 +1170,7 @@ def run_impl(case):
         from nemoguardrails.colang.v2_x.runtime import eval as ev_mod
         from nemoguardrails.colang.v2_x.runtime import utils as ut_mod
         texts = list(obs["texts"])
-        for e in case["events"]:
+        for e in [x for y in case["events"] for x in (y if isinstance(y, list) else [y])]:
             t = e.get("text")
             if isinstance(t, str) and t not in texts and len(texts) < 12:
                 texts.append(t)
@@ -1585,11 +1600,12 @@ def oracle(case, obs):
                 return (f"{c['colang_errors']} ColangError event(s) were processed while handling {c['event']} but the activated flow(s) {reporting} "
                         f"waiting for `match ColangError()` did not react: the error report is not an event a flow can match")
     for c in obs["calls"]:
-        if c["event"] in meta.get("bad_inputs", []):
-            continue  # an external event run_to_completion rejects: nobody can observe it (the clauses on the report and on later events apply)
-        if "Seen" + c["event"] not in c["out"]:
-            why = f" (run_to_completion raised {c['rtc_exc']})" if c["rtc_exc"] else ""
-            return f"observer flow did not react to event {c['event']}{why}: outgoing {c['out'][:6]}"
+        for name in c.get("events", [c["event"]]):
+            if name in meta.get("bad_inputs", []):
+                continue  # an external event run_to_completion rejects: nobody can observe it (the clauses on the report and on later events apply)
+            if "Seen" + name not in c["out"]:
+                why = f" (run_to_completion raised {c['rtc_exc']})" if c["rtc_exc"] else ""
+                return f"observer flow did not react to event {name}{why}: outgoing {c['out'][:6]}"
     if meta.get("expect_error") and meta["kind"] != "abort":
         if sum(c["colang_errors"] for c in obs["calls"]) == 0:
             return f"no ColangError event was produced for the injected {meta['kind']} error"
@@ -1697,7 +1713,7 @@ def tags(case, obs):
         t.append("nested:" + meta["nested"])
     if meta.get("at_instance"):
         t.append("error-at-instance:" + str(meta["at_instance"]))
-    for k in ("relap", "obs_first"):
+    for k in ("relap", "obs_first", "batch"):
         if meta.get(k):
             t.append("opt:" + k)
     if meta.get("obs_style"):
